@@ -245,6 +245,24 @@ impl C09 {
                 }
             }
         }
+        // the deprecated alias must behave exactly like quotient()
+        {
+            let mut a = to_lax(p);
+            let mut b = to_lax(p);
+            #[allow(deprecated)]
+            let ra = guard(|| a.quotient_witness());
+            let rb = guard(|| b.quotient());
+            ctx.api("OpenHypergraph::quotient_witness");
+            let same = match (&ra, &rb) {
+                (Ok(Ok(x)), Ok(Ok(y))) => x.table.0 == y.table.0 && x.target == y.target,
+                (Ok(Err(_)), Ok(Err(_))) => true,
+                (Err(_), Err(_)) => true,
+                _ => false,
+            };
+            ctx.check(same && a == b, "OpenHypergraph::quotient_witness/same-as-quotient/value/any", || {
+                json!({"input": if big { "stress".into() } else { show_lax(p) }, "after_alias": if big { "".into() } else { show_lax(&from_lax_raw(&a)) }, "after_quotient": if big { "".into() } else { show_lax(&from_lax_raw(&b)) }})
+            });
+        }
         self.judge_hyper(ctx, class, p, big);
         ctx.sample(class, || json!({"diagram": if big { format!("stress: {} nodes, {} pairs", p.w.len(), p.q.len()) } else { show_lax(p) }}));
     }
@@ -369,6 +387,7 @@ impl Monitor for C09 {
             ("events:history_quotients", 100),
             ("class:history_with_repeated_quotient", 20),
             ("api:Hypergraph::quotient", 200),
+            ("api:OpenHypergraph::quotient_witness", 200),
         ]
     }
     fn run_case(&self, idx: u64, r: &mut Rng, ctx: &mut Ctx) {
